@@ -189,9 +189,20 @@ void DiffVisitor::bvisit(const Basic &self)
         result_ = Derivative::create(self.rcp_from_this(), {x});               \
     }
 
+// unevaluated, but zero when the symbol does not occur
+#define DIFF0_FUNCTION(CLASS)                                                  \
+    void DiffVisitor::bvisit(const CLASS &self)                                \
+    {                                                                          \
+        if (not has_symbol(self, *x)) {                                        \
+            result_ = zero;                                                    \
+            return;                                                            \
+        }                                                                      \
+        result_ = Derivative::create(self.rcp_from_this(), {x});               \
+    }
+
 DIFF0(UnivariateSeries)
-DIFF0(Max)
-DIFF0(Min)
+DIFF0_FUNCTION(Max)
+DIFF0_FUNCTION(Min)
 #endif
 
 void DiffVisitor::bvisit(const Number &self)
@@ -771,9 +782,16 @@ void DiffVisitor::bvisit(const GaloisField &self)
 void DiffVisitor::bvisit(const Piecewise &self)
 {
     PiecewiseVec v = self.get_vec();
+    bool all_zero = true;
     for (auto &p : v) {
         apply(p.first);
         p.first = result_;
+        if (neq(*result_, *zero))
+            all_zero = false;
+    }
+    if (all_zero) {
+        result_ = zero;
+        return;
     }
     result_ = piecewise(std::move(v));
 }
